@@ -150,9 +150,9 @@ pub fn eval(expr: Node) -> Result<i64, Box<dyn error::Error>> {
         }
         Min(args) => {
             if args.len() > 1 {
-                let mut result = i64::MIN;
+                let mut result = i64::MAX;
                 for arg in <Vec<Node> as Clone>::clone(&args).into_iter() {
-                    result = eval(arg).unwrap().min(result);
+                    result = eval(arg)?.min(result);
                 }
                 Ok(result)
             } else {
@@ -164,9 +164,9 @@ pub fn eval(expr: Node) -> Result<i64, Box<dyn error::Error>> {
         }
         Max(args) => {
             if args.len() > 1 {
-                let mut result = i64::MAX;
+                let mut result = i64::MIN;
                 for arg in <Vec<Node> as Clone>::clone(&args).into_iter() {
-                    result = eval(arg).unwrap().max(result);
+                    result = eval(arg)?.max(result);
                 }
                 Ok(result)
             } else {
@@ -177,22 +177,22 @@ pub fn eval(expr: Node) -> Result<i64, Box<dyn error::Error>> {
             }
         }
         Avg(args) => {
-            let mut result = 0;
+            let mut result: i128 = 0;
             for arg in <Vec<Node> as Clone>::clone(&args).into_iter() {
-                result += eval(arg).unwrap();
+                result += eval(arg)? as i128;
             }
-            let len = args.len() as i64;
-            Ok(result / len)
+            let len = args.len() as i128;
+            Ok((result / len) as i64)
         }
         Med(args) => {
             let mut results = vec![];
             for arg in <Vec<Node> as Clone>::clone(&args).into_iter() {
-                results.push(eval(arg).unwrap());
+                results.push(eval(arg)?);
             }
             results.sort_by(|a, b| a.partial_cmp(b).unwrap());
             let len = results.len();
             if len % 2 == 0 {
-                Ok((results[len >> 1] + results[(len >> 1) - 1]) / 2)
+                Ok(((results[len >> 1] as i128 + results[(len >> 1) - 1] as i128) / 2) as i64)
             } else {
                 Ok(results[len >> 1])
             }
